@@ -420,6 +420,41 @@ func c01Mgr(ops []string) vResult {
 	}
 	var bm *bufferManager
 	var roots []uint32
+	// S (C01): every buffer handed out - by the allocator to a writer, by readBufferSlice to the receiving side - lies
+	// wholly inside one slot of its size-class region, at a slot boundary, and is exactly as large as it advertises
+	geom := func(sl *bufferSlice, how string) {
+		if sl == nil || !sl.isFromShm {
+			return
+		}
+		off := int(sl.offsetInShm)
+		ok := false
+		for _, l := range bm.lists {
+			start, per := int(l.bufferRegionOffsetInShm), int(*l.capPerBuffer)+bufferHeaderSize
+			if off >= start && off < start+len(l.bufferRegion) {
+				ok = (off-start)%per == 0 && int(sl.cap) == int(*l.capPerBuffer)
+			}
+		}
+		if !ok {
+			setFail("slice-outside-slot", fmt.Sprintf("%s: a buffer at offset %d with capacity %d is not a slot of any size class", how, off, sl.cap))
+			return
+		}
+		if len(sl.data) != int(sl.cap) || (len(sl.data) > 0 && &sl.data[0] != &bm.mem[off+bufferHeaderSize]) {
+			setFail("slice-exceeds-slot", fmt.Sprintf("%s: the buffer at offset %d advertises %d bytes but its payload window has %d bytes (a write through it can reach the neighbouring slots)", how, off, sl.cap, len(sl.data)))
+		}
+	}
+	chainGeom := func(root uint32, how string) {
+		for n, off := 0, root; n < 4096; n++ {
+			sl, err := bm.readBufferSlice(off)
+			if err != nil {
+				return
+			}
+			geom(sl, how)
+			if !sl.hasNext() {
+				return
+			}
+			off = sl.nextBufferOffset()
+		}
+	}
 	for _, op := range ops {
 		f := vFields(op)
 		switch {
@@ -449,8 +484,12 @@ func c01Mgr(ops []string) vResult {
 				out = append(out, "nomem")
 				continue
 			}
+			for e := lb.sliceList.front(); e != nil; e = e.next() {
+				geom(e, "allocated for a writer")
+			}
 			lb.done(false)
 			roots = append(roots, lb.rootBufOffset())
+			chainGeom(lb.rootBufOffset(), "readBufferSlice on the receiving side")
 			out = append(out, "ok")
 		case len(f) == 2 && f[0] == "r" && bm != nil:
 			i := vAtoi(f[1])
